@@ -1,3 +1,131 @@
 package main
 
-func extractRest8(l *loaded, genDir, jsonDir string) error { return nil }
+import (
+	"bytes"
+	"fmt"
+	"go/ast"
+	"go/printer"
+	"go/token"
+	"go/types"
+	"path/filepath"
+	"sort"
+	"strings"
+)
+
+type WriteSite struct {
+	Func   string `json:"func"`
+	Callee string `json:"callee"`
+	Arg    string `json:"arg"`
+}
+
+// extractFsCalls: (1) the success-path sequence of file-system calls of replaceFileAtomically,
+// (2) every call in cmd/gosqlx/cmd that writes a whole file, with its path argument.
+func extractFsCalls(l *loaded) ([]string, []WriteSite, error) {
+	p := l.pkgs["cmd/gosqlx/cmd"]
+	if p == nil {
+		return nil, nil, fmt.Errorf("cmd/gosqlx/cmd not loaded")
+	}
+	exprStr := func(e ast.Expr) string {
+		var b bytes.Buffer
+		_ = printer.Fprint(&b, token.NewFileSet(), e)
+		return b.String()
+	}
+	var protocol []string
+	var sites []WriteSite
+	for _, f := range p.Syntax {
+		for _, d := range f.Decls {
+			fd, ok := d.(*ast.FuncDecl)
+			if !ok || fd.Body == nil {
+				continue
+			}
+			fk := funcKey(fd)
+			// write sites
+			ast.Inspect(fd.Body, func(n ast.Node) bool {
+				ce, ok := n.(*ast.CallExpr)
+				if !ok || len(ce.Args) == 0 {
+					return true
+				}
+				name := ""
+				switch fn := ce.Fun.(type) {
+				case *ast.SelectorExpr:
+					if o, ok := p.TypesInfo.Uses[fn.Sel].(*types.Func); ok && o.Pkg() != nil && o.Pkg().Path() == "os" &&
+						(o.Name() == "WriteFile" || o.Name() == "Create" || o.Name() == "OpenFile") {
+						name = "os." + o.Name()
+					}
+				case *ast.Ident:
+					if fn.Name == "replaceFileAtomically" {
+						name = fn.Name
+					}
+				}
+				if name != "" {
+					sites = append(sites, WriteSite{fk, name, exprStr(ce.Args[0])})
+				}
+				return true
+			})
+			if fd.Name.Name != "replaceFileAtomically" {
+				continue
+			}
+			// success path: top-level statements; skip bodies of `if err != nil` and function literals
+			var walk func(n ast.Node)
+			walk = func(n ast.Node) {
+				ast.Inspect(n, func(x ast.Node) bool {
+					switch e := x.(type) {
+					case *ast.FuncLit:
+						return false
+					case *ast.IfStmt:
+						if e.Init != nil {
+							walk(e.Init)
+						}
+						// `if err != nil {…}` bodies are failure paths; `if info, err := os.Stat(..); err == nil {…}` is not
+						if be, ok := e.Cond.(*ast.BinaryExpr); ok && be.Op == token.NEQ {
+							return false
+						}
+						walk(e.Body)
+						return false
+					case *ast.CallExpr:
+						if se, ok := e.Fun.(*ast.SelectorExpr); ok {
+							if o, ok := p.TypesInfo.Uses[se.Sel].(*types.Func); ok && o.Pkg() != nil && o.Pkg().Path() == "os" {
+								protocol = append(protocol, o.Name())
+							}
+						}
+					}
+					return true
+				})
+			}
+			walk(fd.Body)
+		}
+	}
+	sort.Slice(sites, func(i, j int) bool {
+		if sites[i].Func != sites[j].Func {
+			return sites[i].Func < sites[j].Func
+		}
+		return sites[i].Arg < sites[j].Arg
+	})
+	return protocol, sites, nil
+}
+
+func extractRest8(l *loaded, genDir, jsonDir string) error {
+	protocol, sites, err := extractFsCalls(l)
+	if err != nil {
+		return err
+	}
+	if err := writeJSON(jsonDir+"/fs_calls.json", map[string]any{"atomic_protocol": protocol, "write_sites": sites}); err != nil {
+		return err
+	}
+	var b strings.Builder
+	b.WriteString(genHeader)
+	b.WriteString("namespace GoSQLXModel.Gen\n\n/-- success-path os calls of replaceFileAtomically, in order -/\n")
+	fmt.Fprintf(&b, "def atomicProtocol : List String := %s\n\n", leanStrList(protocol))
+	b.WriteString("/-- whole-file write sites of cmd/gosqlx/cmd: (function, callee, path argument) -/\ndef writeSites : List (String × String × String) := [")
+	for i, s := range sites {
+		if i > 0 {
+			b.WriteString(", ")
+		}
+		fmt.Fprintf(&b, "(%s, %s, %s)", leanStr(s.Func), leanStr(s.Callee), leanStr(s.Arg))
+	}
+	b.WriteString("]\n\nend GoSQLXModel.Gen\n")
+	if _, err := writeIfChanged(filepath.Join(genDir, "FsCalls.lean"), []byte(b.String())); err != nil {
+		return err
+	}
+	return extractRest9(l, genDir, jsonDir)
+}
